@@ -9,12 +9,12 @@ package main
 //@ func (*bastionClient).Update
 //@   returns (out, err)
 //@   requires b != nil && b.httpClient != nil
-//@   modifies req_method, req_url, req_body, req_ctx, n_do, do_method, do_url, do_body, do_err, do_status, do_final_method, do_resp_body, do_ctx, n_noctx, n_bodies_open, rd_buf, rdr_bytes
+//@   modifies req_method, req_url, req_body, req_ctx, n_do, do_method, do_url, do_body, do_err, do_status, do_final_method, do_resp_body, do_ctx, n_noctx, n_bodies_open, body_open, rd_buf, rdr_bytes
 //@   ensures[C11.wr] n_do <= old(n_do) + 1 && (n_do == old(n_do) + 1 ==> do_method == "POST" && do_url == b.url)
 //@   ensures[C11.wr] n_do == old(n_do) + 1 ==> str(do_body) == cat2("old 0\n" ++ encPre(rowOf(proof), offOf(proof), len(proof)), "\n" ++ str(newCP))
 //@   // the request carries the caller's context: a bastion that never answers cannot hold the feed cycle past its deadline
 //@   ensures[C13.ctx,C19.ctx] n_do == old(n_do) + 1 ==> do_ctx == ctx
-//@   ensures[C13.ctx,C19.ctx] ctx != noCtx() ==> n_noctx == old(n_noctx)
+//@   ensures[C13.ctx,C19.ctx] ctx != noCtx() && ctx != todoCtx() ==> n_noctx == old(n_noctx)
 //@   hint encPre_0(rowOf(proof), offOf(proof))
 //@   hint scat_unit("old 0\n")
 //@   hint#1 encPre_s(rowOf(proof), offOf(proof), $i + 1)
